@@ -29,6 +29,8 @@ def _collapse(r):
 def _norm_index(idx):
     if isinstance(idx, tuple):
         return tuple(_norm_index(i) for i in idx)
+    if getattr(idx, '_is_torch_tensor', False) and real_np.asarray(idx).size == 1 and real_np.asarray(idx).dtype == object:
+        return int(real_np.asarray(idx).reshape(-1)[0])      # numpy treats a one-element tensor as an integer index (__index__)
     if isinstance(idx, list) and idx and all(isinstance(x, SV) or isinstance(x, (int, real_np.integer)) for x in idx) \
             and any(isinstance(x, SV) for x in idx):
         return [int(x) for x in idx]
@@ -237,7 +239,7 @@ class NPShim:
         return self.empty(real_np.shape(a))
 
     def arange(self, *a, **kw):
-        return real_np.arange(*[int(x) for x in a])
+        return real_np.arange(*[int(x) for x in a]).view(SArr)
 
     def array(self, x, dtype=None, **kw):
         if isinstance(x, real_np.ndarray) and x.dtype == bool:
